@@ -19,6 +19,7 @@ func init() {
 		Assumptions: []string{"proto.Equal is value equality of messages and false for (nil, non-nil)", "proto.Clone returns a deep copy", "locks identified by access path"},
 		Run:         runC02,
 		Controls: []Control{
+			{Name: "reread-returns-remembered-message-with-error", File: "pkg/resource/collection.go", Old: "\t\t\t\tif _, exists := c.byId[id]; exists {\n\t\t\t\t\treturn nil, ExpectAbsentPreconditionFailed\n", New: "\t\t\t\tif _, exists := c.byId[id]; exists {\n\t\t\t\t\treturn created, ExpectAbsentPreconditionFailed\n", Expect: "R02.8"},
 			{Name: "value-set-retries", File: "pkg/resource/value.go", Old: "\t_, newValue, err := GetAndUpdate(", New: "\tvar newValue proto.Message\n\tvar err error\n\tfor attempt := 0; attempt < 3 && (attempt == 0 || err != nil); attempt++ {\n\t_, newValue, err = GetAndUpdate(", More: []Edit{{File: "pkg/resource/value.go", Old: "\t\t\tr.changeTime = changeTime\n\t\t},\n\t)\n", New: "\t\t\tr.changeTime = changeTime\n\t\t},\n\t)\n\t}\n"}}, Expect: "R02.7"},
 			{Name: "drop-equal-guard", File: "pkg/resource/atomic.go", Old: "if !proto.Equal(oldValue, oldValueAgain) {", New: "if false && !proto.Equal(oldValue, oldValueAgain) {", Expect: "R02.1"},
 			{Name: "rlock-before-save", File: "pkg/resource/atomic.go", Old: "\tmu.Lock()\n\tdefer mu.Unlock()", New: "\tmu.RLock()\n\tdefer mu.RUnlock()", Expect: "R02.1"},
@@ -81,6 +82,8 @@ func runC02(c *an.Ctx) {
 	r026(c, "R02.6")
 	r027(c)
 	c.Min("R02.7", 2)
+	r028(c, "R02.8")
+	c.Min("R02.8", 2)
 	c.Min("R02.6", 2)
 	c.Min("R02.1", 5)
 	c.Min("R02.2", 2)
@@ -735,4 +738,60 @@ func eachInstrDeep02(fn *ssa.Function, f func(ssa.Instruction)) {
 	for _, h := range an.TransparentCalleesOf(fn, 2) {
 		an.Instrs(h, f)
 	}
+}
+
+// r028: GetAndUpdate ignores the error of its second read (`oldValueAgain, _ := get()`) and compares the VALUES: a read
+// callback that wants the re-validation to fail has to return a value that cannot equal the first read. So every read
+// callback handed to GetAndUpdate returns a nil message together with every error it can return. Returning the
+// remembered message with the error ("id exists by now") makes the two reads equal: the write is saved over the
+// concurrent writer's.
+func r028(c *an.Ctx, rule string) {
+	gau := c.Prog.Func(resPkg, "", "GetAndUpdate")
+	if gau == nil {
+		return
+	}
+	getIdx := -1
+	for i, p := range gau.Params {
+		if strings.HasSuffix(an.NamedTypeName(p.Type()), "/pkg/resource.GetFn") {
+			getIdx = i
+		}
+	}
+	if getIdx < 0 {
+		return
+	}
+	n := 0
+	for fn := range c.Prog.AllFuncs {
+		if c.Prog.IsGenerated(fn.Pos()) {
+			continue
+		}
+		for _, call := range an.CallsTo(fn, an.FuncQName(gau)) {
+			g, _, _ := an.CallbackBody(call.Common().Args[getIdx])
+			if g == nil {
+				g = an.ClosureFn(call.Common().Args[getIdx])
+			}
+			if g == nil || g.Signature.Results().Len() != 2 {
+				continue
+			}
+			n++
+			c.SawFunc(an.FuncName(g))
+			var bad *ssa.Return
+			for _, r := range an.Returns(g) {
+				if len(r.Results) != 2 || provablyNilAt(r.Results[1], r) {
+					continue
+				}
+				for _, v := range an.ValuesAt(r.Results[0]) {
+					if !an.IsNilConst(v) {
+						bad = r
+					}
+				}
+			}
+			pos := g.Pos()
+			if bad != nil {
+				pos = bad.Pos()
+			}
+			c.Check(bad == nil, rule, an.FuncName(fn)+"|a read that fails returns no message", pos, "every return with an error returns a nil message",
+				"the read callback returns a message together with an error: GetAndUpdate ignores the error of its re-read and compares the values, so a re-read that returns the remembered message with `already exists` passes the comparison and the write is saved over the concurrent writer's (two Adds of one id both succeed)")
+		}
+	}
+	c.Count("read_callbacks", n)
 }
